@@ -85,6 +85,21 @@ def trace(rep, roots):
     return out
 
 
+def sys_trace(rep, roots):
+    """[(sys, normalised path)] of the executed steps (lengths left out: a torn/short length is rewritten)."""
+    return [(t[1], t[2]) for t in trace(rep, roots)]
+
+
+def assert_same_prefix(rep, probe_trace, upto, roots, what):
+    """Owning nondeterminism: an execution that is driven by step indices learned from a probe run must perform the
+    same system calls in the same order up to the point of interference; anything else is a machinery error."""
+    got = [tuple(x) for x in sys_trace(rep, roots)[:upto]]
+    want = [tuple(x) for x in probe_trace[:upto]]
+    if got != want:
+        raise TracerError("nondeterministic step sequence in %s: expected %r, got %r" % (what, want[-3:], got[-3:]))
+    return len(got)
+
+
 def preemptions(decisions, upto=None):
     n = 0
     for d in decisions[:upto]:
